@@ -245,6 +245,125 @@ mut("c07-worker-breaks-after-first", "C07,C06", P, """                    drop(r
                 std::mem::forget(panic_guard);""")
 mut("c07-spawn-always", "C06", P, "NonZeroUsize::new(aux_threads.saturating_sub(threads.len()))", "NonZeroUsize::new(if threads.len() == 2 { 1 } else { aux_threads.saturating_sub(threads.len()) })")
 
+# ---- C08
+mut("c08-no-second-start-barrier", "C08", B, """                        alloc_info.clear();
+
+                        // Synchronize all threads.
+                        if let Some(barrier) = barrier {
+                            barrier.wait();
+                        }""", """                        alloc_info.clear();""")
+mut("c08-no-end-barrier", "C08", B, """                    let alloc_info = if is_start {
+                        ThreadAllocInfo::current()
+                    } else {
+                        None
+                    };
+
+                    // Synchronize all threads.
+                    //
+                    // This is the final synchronization point for the end.
+                    if let Some(barrier) = barrier {
+                        barrier.wait();
+                    }""", """                    let alloc_info = if is_start {
+                        ThreadAllocInfo::current()
+                    } else {
+                        None
+                    };
+
+                    // Synchronize all threads.
+                    //
+                    // This is the final synchronization point for the end.
+                    if let (Some(barrier), true) = (barrier, is_start) {
+                        barrier.wait();
+                    }""")
+mut("c08-missing-result-ignored", "C08", B, """                    panic!("Divan benchmarking thread {thread} panicked");""", """                    if thread == 0 { panic!("Divan benchmarking thread {thread} panicked"); } else { return; }""")
+
+# ---- C02
+mut("c02-start-before-inputs", "C02", B, """                        // Initialize and store inputs.
+                        for input in defer_inputs_slice {
+                            // SAFETY: We have exclusive access to `input`.
+                            let input = unsafe { &mut *input.get() };
+                            let input = input.write(gen_input());
+                            count_input(input);
+
+                            // Make input opaque to benchmarked function.
+                            black_box(input);
+                        }
+
+                        // Create iterator before the sample timing section to
+                        // reduce benchmarking overhead.
+                        let defer_inputs_iter = defer_inputs_slice.iter();
+
+                        sync_threads(true);
+                        sample_start = UntaggedTimestamp::start(timer_kind);
+""", """                        sync_threads(true);
+                        sample_start = UntaggedTimestamp::start(timer_kind);
+
+                        // Initialize and store inputs.
+                        for input in defer_inputs_slice {
+                            // SAFETY: We have exclusive access to `input`.
+                            let input = unsafe { &mut *input.get() };
+                            let input = input.write(gen_input());
+                            count_input(input);
+
+                            // Make input opaque to benchmarked function.
+                            black_box(input);
+                        }
+
+                        // Create iterator before the sample timing section to
+                        // reduce benchmarking overhead.
+                        let defer_inputs_iter = defer_inputs_slice.iter();
+""")
+mut("c02-save-after-drops", "C02", B, """                        sample_end = UntaggedTimestamp::end(timer_kind);
+                        sync_threads(false);
+                        save_alloc_info();
+
+                        // Prevent the optimizer from removing writes to inputs
+                        // and outputs in the sample loop.
+                        black_box(defer_slots_slice);
+
+                        // Drop outputs and inputs.
+                        for DeferSlot { input, output } in defer_slots_slice {
+                            // SAFETY: All outputs were initialized in the
+                            // sample loop and we have exclusive access.
+                            unsafe { (*output.get()).assume_init_drop() }
+
+                            if mem::needs_drop::<I>() {
+                                // SAFETY: The output was dropped and thus we
+                                // have exclusive access to inputs.
+                                unsafe { drop_input(input) }
+                            }
+                        }""", """                        sample_end = UntaggedTimestamp::end(timer_kind);
+                        sync_threads(false);
+
+                        // Prevent the optimizer from removing writes to inputs
+                        // and outputs in the sample loop.
+                        black_box(defer_slots_slice);
+
+                        // Drop outputs and inputs.
+                        for DeferSlot { input, output } in defer_slots_slice {
+                            // SAFETY: All outputs were initialized in the
+                            // sample loop and we have exclusive access.
+                            unsafe { (*output.get()).assume_init_drop() }
+
+                            if mem::needs_drop::<I>() {
+                                // SAFETY: The output was dropped and thus we
+                                // have exclusive access to inputs.
+                                unsafe { drop_input(input) }
+                            }
+                        }
+                        save_alloc_info();""")
+mut("c02-clear-before-generation-only", "C02", B, """                    if let Some(mut alloc_info) = alloc_info {
+                        // SAFETY: We have exclusive access.
+                        let alloc_info = unsafe { alloc_info.as_mut() };
+
+                        alloc_info.clear();
+""", """                    if let Some(mut alloc_info) = alloc_info {
+                        // SAFETY: We have exclusive access.
+                        let alloc_info = unsafe { alloc_info.as_mut() };
+
+                        if alloc_info.max_count < 2 { alloc_info.clear(); }
+""")
+
 def sh(cmd, **kw):
     return subprocess.run(cmd, shell=True, capture_output=True, text=True, **kw)
 
